@@ -11,16 +11,51 @@ Definition bin_supported (o : binop) : bool :=
 Definition un_supported (o : unop) : bool :=
   match o with UEmptyApply => false | _ => true end.
 
+(* `^~` occurring in e outside any nested expression body of e *)
+Fixpoint has_reapply (e : expr) : bool :=
+  match e with
+  | ELit _ | EValue | EIdent _ | ENested _ _ => false
+  | EReapply _ => true
+  | EUn _ x | EGroup x => has_reapply x
+  | EBin _ l r | EAnd l r | EOr l r | EList _ l r | ECond _ l r | EElse l r | ESeq _ l r | ESide l r =>
+      has_reapply l || has_reapply r
+  end.
+
 (* stages 1-3: everything except nested expressions, the apply forms and `^~` *)
+Fixpoint frag3 (e : expr) : bool :=
+  match e with
+  | ELit _ | EValue | EIdent _ => true
+  | EUn o x => un_supported o && frag3 x
+  | EBin o l r => bin_supported o && frag3 l && frag3 r
+  | EAnd l r | EOr l r | EList _ l r | ECond _ l r | EElse l r | ESeq _ l r | ESide l r => frag3 l && frag3 r
+  | EGroup x => frag3 x
+  | ENested _ _ | EReapply _ => false
+  end.
+
+(* stage 4: every construct; the only exclusion is the known-finding class
+   C01-K2, a `^~` that would be executed inside a side-effect block *)
 Fixpoint frag (e : expr) : bool :=
   match e with
   | ELit _ | EValue | EIdent _ => true
-  | EUn o x => un_supported o && frag x
-  | EBin o l r => bin_supported o && frag l && frag r
-  | EAnd l r | EOr l r | EList _ l r | ECond _ l r | EElse l r | ESeq _ l r | ESide l r => frag l && frag r
-  | EGroup x => frag x
-  | ENested _ _ | EReapply _ => false
+  | EUn _ x | EGroup x | ENested _ x | EReapply x => frag x
+  | ESide a s => frag a && frag s && negb (has_reapply s)
+  | EBin _ l r | EAnd l r | EOr l r | EList _ l r | ECond _ l r | EElse l r | ESeq _ l r => frag l && frag r
   end.
+
+Lemma frag3_no_reapply : forall e, frag3 e = true -> has_reapply e = false.
+Proof.
+  induction e; cbn; intros H; auto; try discriminate;
+    repeat (apply andb_prop in H; destruct H as [H ?]);
+    try rewrite IHe by assumption; try rewrite IHe1 by assumption; try rewrite IHe2 by assumption; auto.
+Qed.
+
+Lemma frag3_frag : forall e, frag3 e = true -> frag e = true.
+Proof.
+  induction e; cbn; intros H; auto; try discriminate;
+    try (repeat (apply andb_prop in H; destruct H as [H ?]);
+         try rewrite IHe by assumption; try rewrite IHe1 by assumption; try rewrite IHe2 by assumption; auto).
+  rewrite (frag3_no_reapply e2) by assumption. reflexivity.
+Qed.
 
 (* a left-nested chain of conditionals: c1 ?> a1 |> c2 ?> a2 |> ... *)
 Fixpoint lchain (e : expr) : bool :=
